@@ -539,6 +539,36 @@ func runC05Proc(c *fw.Case) {
 		c.Violate("tar-failed", "desync tar", "exit %d: %s", exit, tailBytes(stderr, 300))
 		return
 	}
+	// the mtree manifest of the source directory, of the archive or of the index lists the tree
+	if !tarIn || !cut {
+		margs := append(append([]string{}, pre...), "mtree")
+		what := c.Draw(4, "cli.mtree")
+		switch {
+		case what == 1 && !tarIn:
+			margs = append(margs, src)
+		case what == 2 && useIndex:
+			margs = append(margs, "-i", "-s", storeDir, archive)
+		case what == 2 || what == 3 && !useIndex:
+			margs = append(margs, archive)
+		default:
+			margs = nil
+		}
+		if margs != nil {
+			mexit, mout, mstderr, err := runDesync(margs...)
+			if err != nil {
+				c.HarnessError("%v", err)
+				return
+			}
+			c.SubEval(1)
+			if mexit != 0 {
+				c.Violate("mtree-failed", "desync mtree", "`desync %s` exits %d: %s", strings.Join(margs, " "), mexit, tailBytes(mstderr, 300))
+				return
+			}
+			if !checkMtree(c, "mtree-out", mout, want, sha256mode) {
+				return
+			}
+		}
+	}
 	first, _ := os.ReadFile(archive)
 	// packing twice gives identical bytes
 	if exit, _, _, _ := runDesync(tarArgs...); exit == 0 {
